@@ -221,18 +221,37 @@ func ruleTimeoutConfig(rule string) ruleFn {
 				c.Bad(rule, strings.TrimPrefix(gn, "global:")+" | configured", "", "the variable is never assigned: the configured value does not reach the client", nil)
 			}
 		}
-		// the deadline armed per operation type
+		// the deadline chosen per operation type: every read of one of the deadline variables in
+		// operation, its literals, or a new function they call sits on the edge of its operation type
 		if op := c.Anchor(rule, fCli+"operation"); op != nil {
 			fns := append([]*ssa.Function{op}, Closures(op)...)
+			seenFn := map[*ssa.Function]bool{}
+			for _, f := range fns {
+				seenFn[f] = true
+			}
+			for i := 0; i < len(fns); i++ {
+				eachInstr(fns[i], func(in ssa.Instruction) {
+					if cl, ok := in.(ssa.CallInstruction); ok {
+						if h := cl.Common().StaticCallee(); h != nil && h.Blocks != nil && isFreshFn(h) && !seenFn[h] {
+							seenFn[h] = true
+							fns = append(fns, h)
+						}
+					}
+				})
+			}
 			n := 0
 			for _, f := range fns {
 				R := NewRenderer(f)
-				for _, in := range CallsTo(f, "time.After") {
-					cl := in.(*ssa.Call)
-					arg := R.V(cl.Call.Args[0])
-					if !strings.HasPrefix(arg, "rpc.op") {
-						continue
+				eachInstr(f, func(in ssa.Instruction) {
+					ld, ok := in.(*ssa.UnOp)
+					if !ok || ld.Op != token.MUL {
+						return
 					}
+					g, ok := ld.X.(*ssa.Global)
+					if !ok || g.Pkg == nil || short(g.Pkg.Pkg.Path()) != "rpc" || !strings.HasPrefix(g.Name(), "op") || !strings.HasSuffix(g.Name(), "Timeout") {
+						return
+					}
+					arg := "rpc." + g.Name()
 					n++
 					var typ string
 					switch arg {
@@ -246,17 +265,16 @@ func ruleTimeoutConfig(rule string) ruleFn {
 						typ = "TypeUnmap"
 					case "rpc.opPingTimeout":
 						c.OK(rule, FnName(op)+" | deadline of the remaining operations", c.P.InstrPos(in), arg, false)
-						continue
+						return
 					default:
 						c.Bad(rule, FnName(op)+" | deadline "+arg, c.P.InstrPos(in), "unknown deadline variable", nil)
-						continue
+						return
 					}
 					tv, ok := c.P.pkgIntConst("rpc", typ)
 					if !ok {
 						c.Undecided(rule, FnName(op)+" | "+typ, "", "constant not found")
-						continue
+						return
 					}
-					// the operation type is the closure's parameter or the function's
 					var atoms []string
 					for _, t := range []string{"$0", "$1", "var(rpc.Message).Type"} {
 						if tv == 0 {
@@ -265,11 +283,12 @@ func ruleTimeoutConfig(rule string) ruleFn {
 							atoms = append(atoms, fmt.Sprintf("+%s -%d ==0", t, tv))
 						}
 					}
-					c.Guard(rule, f, []ssa.Instruction{in}, "arm "+arg, nil, atom("operation type is "+typ, atoms...))
-				}
+					c.Guard(rule, f, []ssa.Instruction{in}, "choose "+arg, nil, atom("operation type is "+typ, atoms...))
+					_ = R
+				})
 			}
 			if n < 5 {
-				c.Bad(rule, FnName(op)+" | one deadline per operation type", c.P.Pos(op.Pos()), fmt.Sprintf("only %d time.After(op…Timeout) calls found", n), nil)
+				c.Bad(rule, FnName(op)+" | one deadline per operation type", c.P.Pos(op.Pos()), fmt.Sprintf("only %d reads of a deadline variable found", n), nil)
 			}
 		}
 		c.Floor(rule, 10)
